@@ -37,61 +37,6 @@ def _guards(ctx):
     return out
 
 
-def _holder_same_across_recursion(ctx, m, qual, attr):
-    """Is `self.<attr>` of the method's class the same object at depth n and n+1?
-
-    Returns (ok, reason)."""
-    cref = evalcore.class_of_method(m, qual)
-    per_call = evalcore.context_classes(ctx)
-    em = ctx.mod('evaluator')
-    # 1. the collection must be created once per holder (in __init__ only) and not rebound on the path
-    inits = evalcore.attr_inits(ctx, cref).get(attr, [])
-    if not inits:
-        return False, f'self.{attr} is never initialised in {cref}'
-    for meth, assign in inits:
-        if meth.name != '__init__':
-            return False, f'self.{attr} is re-created in {meth.name}() on every call'
-    if cref in per_call:
-        # the holder is a context: it is the same at depth n+1 only if the nested evaluate receives it,
-        # or the collection object itself is handed to the new context
-        ec = em.func('EvaluatorContext.eval_cell')
-        for c in flow.calls_in(ec):
-            if isinstance(c.func, ast.Attribute) and c.func.attr == 'evaluate':
-                arg = c.args[1] if len(c.args) > 1 else next((k.value for k in c.keywords if k.arg == 'context'), None)
-                if isinstance(arg, ast.Name) and arg.id == 'self':
-                    return True, 'the context itself is passed to the nested evaluate'
-        # constructor receives the collection?
-        for cm, call in evalcore.constructions(ctx, 'pkg:evaluator:EvaluatorContext'):
-            for a in list(call.args) + [k.value for k in call.keywords]:
-                if isinstance(a, ast.Attribute) and a.attr == attr:
-                    # and the initialiser uses the parameter
-                    return True, 'the collection is handed to the new context'
-        return False, (f'self.{attr} lives in the evaluation context, and a new context with a fresh '
-                       f'collection is created for every nested cell (evaluate(addr, None) -> _get_context)')
-    if cref == 'pkg:evaluator:Evaluator':
-        # nested evaluation must call evaluate on the same evaluator object
-        ec = em.func('EvaluatorContext.eval_cell')
-        ok_call = False
-        for c in flow.calls_in(ec):
-            if isinstance(c.func, ast.Attribute) and c.func.attr == 'evaluate':
-                recv = c.func.value
-                if evalcore.self_attr(recv):
-                    hold = evalcore.self_attr(recv)
-                    inits_ctx = evalcore.attr_inits(ctx, 'pkg:evaluator:EvaluatorContext').get(hold, [])
-                    from_param = any(meth.name == '__init__' and isinstance(a.value, ast.Name)
-                                     and a.value.id in func_params(meth) for meth, a in inits_ctx)
-                    cons = evalcore.constructions(ctx, 'pkg:evaluator:EvaluatorContext')
-                    passes_self = bool(cons) and all(
-                        call.args and isinstance(call.args[0], ast.Name) and call.args[0].id == 'self'
-                        and call._func.startswith('Evaluator.') for _, call in cons)
-                    if from_param and passes_self:
-                        ok_call = True
-        if ok_call:
-            return True, 'the evaluator is passed down unchanged (context.evaluator is the constructing evaluator)'
-        return False, 'nested evaluation does not provably call evaluate() on the same evaluator object'
-    return False, f'holder class {cref} not modelled'
-
-
 def rule_1(ctx):
     """Decided on witness models (the recursion Evaluator.evaluate -> formula tree -> context.eval_cell -> evaluate is interpreted
     as written): a self reference and a three-cell cycle are reported on re-entry, a diamond / repeated reference is not."""
@@ -101,42 +46,6 @@ def rule_1(ctx):
     for m, qual, fn, ifn, key, coll in guards:
         ctx.note(f'recognised guard in {qual}: `{ast.unparse(ifn.test)[:60]}`')
     ctx.floor(4, 'cycle / diamond scenarios')
-
-
-def _rule_1_syntactic(ctx):
-    """Former shape analysis of the guard (identity flow of the guarded collection); kept for reference, not registered: the
-    scenarios above decide the same facts on every spelling of the guard (inline, helper method, context manager)."""
-    guards = _guards(ctx)
-    em = ctx.mod('evaluator')
-    ev = em.func('Evaluator.evaluate')
-    if not guards:
-        ctx.bad(ev, 'cycle guard exists', 'no "address already being evaluated -> raise" guard on the recursion: '
-                                          'A1:=B1, B1:=A1 recurses without bound')
-    effective = 0
-    for m, qual, fn, ifn, key, coll in guards:
-        attr = evalcore.self_attr(coll)
-        ok, why = _holder_same_across_recursion(ctx, m, qual, attr)
-        if ok:
-            effective += 1
-        ctx.expect(ok, ifn, f'cycle guard on self.{attr} sees its ancestors', why, why)
-        # the guard raises something that reports a cycle
-        msg = ' '.join(x.value for r in ifn.body for x in ast.walk(r) if isinstance(x, ast.Constant) and isinstance(x.value, str))
-        ctx.expect('ycl' in msg or 'ircular' in msg, ifn, f'guard on self.{attr} reports a cycle',
-                   'the exception raised by the guard does not mention a cycle / circular reference')
-        # inserted key == tested key, insertion after the guard
-        ins = [c for c in flow.calls_in(fn) if isinstance(c.func, ast.Attribute) and c.func.attr in ('append', 'add')
-               and ast.dump(evalcore.deref(c.func.value, fn)) == ast.dump(coll)]
-        ok = bool(ins) and all(ast.dump(c.args[0]) == ast.dump(key) and flow.pos(c) > flow.pos(ifn) for c in ins)
-        ctx.expect(ok, ifn, f'guard on self.{attr}: tested key is the inserted key',
-                   'the address inserted into the collection is not the one the guard tests (or is inserted before the test)')
-        # the guard is reached for every formula cell: not nested under a condition other than the no-formula early return
-        conds = [c for c in flow.path_conditions(ifn) if c.kind in ('if', 'while')]
-        ctx.expect(not conds, ifn, f'guard on self.{attr} is unconditional for formula cells',
-                   f'the guard only runs under `{ast.unparse(conds[0].test)[:40] if conds else ""}`')
-    ctx.expect(effective >= 1, ev, 'at least one effective cycle guard',
-               'no cycle guard consults a collection shared along the recursion: circular references recurse until the '
-               'interpreter stack overflows')
-    ctx.floor(2, 'guards on the recursion')
 
 
 def _paired_insertions(ctx):
